@@ -30,7 +30,12 @@ func TestDump(t *testing.T) {
 	fmt.Sscan(os.Getenv("C08_DUMP"), &seed, &batch)
 	s := dbgMix(dbgMix(dbgMix(seed, vrt.Hash64("C08")), uint64(batch)), 0)
 	r := rand.New(rand.NewPCG(s, dbgMix(s, 0x5851f42d4c957f2d)))
-	c := genCase(r, mustList[batch%len(mustList)])
+	var c *Case
+	if must, special := caseKind("quick", batch, 0); special {
+		c = genSpecial(r, must)
+	} else {
+		c = genCase(r, must)
+	}
 	for _, p := range c.Pkgs {
 		fmt.Println("=====", p.Name)
 		for _, x := range p.Derives {
